@@ -27,5 +27,12 @@ for k, n in enumerate(kn):
     H.append(dict(name="ed25519.kernel-effects.%s" % n, pkg="./group/edwards25519", files=["harness/C20/ed25519.go"], entry="HarnessEdKernelEffects", mode="int", params={"p0": k}, no_replay=True, approx_bitops=True,
                   functions=["edwards25519." + n], bound="all inputs within the documented limb bounds; the output parameter is the only memory written",
                   tiers=(["quick", "thorough"] if n in ("feMul", "feCMove", "feToBytes", "scAdd", "feFromBytes") else ["thorough"])))
+BP = "go.dedis.ch/kyber/v4/pairing/bn256."
+bn_contracts = {BP + k: dict(writes=[0], havoc=True) for k in ["gfpMul", "gfpAdd", "gfpSub", "gfpNeg"]}
+for k, mn in enumerate(["MarshalBinary", "Data", "Equal", "Clone", "String", "operand-of-Add-Neg-Set-Sub", "MarshalSize-EmbedLen"]):
+    H.append(dict(name="bn256.G1.%s" % mn, pkg="./pairing/bn256", files=["harness/C04/bn.go"], entry="HarnessBNReadOnlyG1", mode="int", params={"p0": k}, contracts=bn_contracts, approx_bitops=True, unwind=2000,
+                  race_entry="RaceBNReadOnlyG1", stubs=["gfpMul/gfpAdd/gfpSub/gfpNeg (assembly) -> writes only its output parameter, arbitrary value", "fmt formatting = empty bodies"],
+                  functions=["bn256.(*pointG1).%s" % mn], bound="arbitrary Jacobian coordinates; one call",
+                  mutants=[dict(id="C20a", file="pairing/bn256/point.go", old="\tpgtemp := *p.g\n\tpgtemp.MakeAffine()", new="\tpgtemp := p.g\n\tpgtemp.MakeAffine()")] if mn == "Data" else []))
 json.dump(dict(property="C20", harnesses=H), open(os.path.join(os.path.dirname(__file__), "..", "specs", "C20.json"), "w"), indent=1)
 print(len(H))
